@@ -28,6 +28,9 @@ type histProp struct {
 	newObs func(pc *PCase, ps *PState, c *core.Case, st *core.Stats) histObserver
 	// large adds big-geometry kinds in the thorough tier.
 	large bool
+	// midtext adds single-fill texts of 2-60 kB over small alphabets (the
+	// sizes at which the fallback sorters of the suffix sort run).
+	midtext bool
 	// fixed are hand-written directed cases (kind "fixed:<name>"), e.g. the
 	// reproducers of recorded findings.
 	fixed map[string]PCase
@@ -82,6 +85,9 @@ func (h *histProp) Plan(tier string, seed int64) []core.Segment {
 				segs = append(segs, core.Segment{Kind: "shapes:" + t, N: n, Chunk: 2})
 			}
 		} else {
+			if h.midtext {
+				segs = append(segs, core.Segment{Kind: "midtext:" + t, N: 160 * tierScale(tier, 10), Chunk: 8})
+			}
 			segs = append(segs, core.Segment{Kind: "long:" + t, N: 300 * tierScale(tier, 20)})
 			segs = append(segs, core.Segment{Kind: "bigblock:" + t, N: 160 * tierScale(tier, 10), Chunk: 10})
 		}
@@ -241,6 +247,32 @@ func (h *histProp) Gen(kind string, idx int64, seed int64, tier string) core.Cas
 			}
 		}
 		pc.Ops = append(phase1, pc.Ops...)
+	case "midtext":
+		// one fill of 2-60 kB over an alphabet of 2-4 letters, window at least
+		// as large as the buffer, parsed in blocks of 1 kB up to everything
+		n := []int{2000, 4000, 8000, 8000, 16000, 20000, 30000, 50000, 60000}[r.Intn(9)] + r.Intn(2000)
+		c := gen.SmallCfg(r, typ, o)
+		c.BufferSize, c.WindowSize, c.ShrinkSize = n, n+r.Intn(2)*r.Intn(100), r.Intn(n/2)
+		c.BlockSize = []int{1000, 4000, n / 2, n, 2 * n}[r.Intn(5)]
+		if c.MinMatchLen > 4 {
+			c.MinMatchLen = 2 + r.Intn(3)
+		}
+		f := []string{"rand2", "rand2", "rand3", "rand4", "bstar", "tworuns"}[r.Intn(6)]
+		var stream []byte
+		if f == "bstar" {
+			stream = bstarText(r, n+r.Intn(3)*r.Intn(n))
+		} else {
+			stream = gen.Family(r, f, n+r.Intn(3)*r.Intn(n), c.Hint())
+		}
+		ops := []POp{{K: "write", A: 1, B: 0}}
+		for j := 0; j < 70; j++ {
+			ops = append(ops, POp{K: "parse", A: []int{0, 0, 0, lz.NoTrailingLiterals}[r.Intn(4)]})
+		}
+		ops = append(ops, POp{K: "shrink"}, POp{K: "write", A: 1, B: 0})
+		for j := 0; j < 40; j++ {
+			ops = append(ops, POp{K: "parse"})
+		}
+		pc = PCase{Cfg: c, Family: f, Stream: stream, Ops: ops}
 	case "shapes":
 		// [Write of more than 64 KiB, Parse] followed by every sequence of 5
 		// operations over Parse / Parse(NoTrailingLiterals) / Parse(nil) /
